@@ -9,6 +9,18 @@ HERE = os.path.dirname(os.path.dirname(os.path.abspath(__file__)))
 TECH = 'Lean 4 theorems over an executable model + checked correspondence (differential, line protocol) with /repo'
 
 CLAIMED = {
+    'C01': {
+        'text': 'Proof: C01_codes_inverse, C01_prism_perm_involutive, C01_orientation (FrontISTR outward face cycles of the written row = '
+                'femio\'s face tables, for tet/tet2/prism/hex/hex2; C01_prism_unpermuted_inverted shows the symmetric error), '
+                'C01_float_roundtrip (%.pE vs float() at every precision), C01_row_roundtrip, C01_blocks_roundtrip, C01_roundtrip_partial '
+                '(node / element / temperature sections for every mesh), C01_format_insensitive_blank_comment / _split / _bang_fixed are '
+                'kernel-checked; tied to the tree by string-identical writer text on 13-digit decimals and model reader vs real reader on '
+                'the written and G1-G6 mutated text.',
+        'note': 'whole-file round trip is partial (section re-finding with symbolic names, section/material lines, remove_useless_nodes by '
+                'correspondence only); G3 whitespace per field only; FrontISTR ordering convention is a hand spec; %.12E/float() rounding is runtime',
+        'technique': 'Lean 4 proof (string-level lexer/printer lemmas, table obligations by decide, ring for orientation) + differential correspondence of file text',
+        'design': '4/C01',
+    },
     'C02': {
         'text': 'Proof: C02_parse_render (the reader inverts the solver layout: both header layouts, every variable list, component counts, '
                 'wrap widths and ids), C02_split_point (the walk-back lands exactly at the nodal/elemental boundary), C02_columns, '
@@ -19,6 +31,15 @@ CLAIMED = {
                 'variable; unreferenced nodes are a separately labelled stream',
         'technique': 'Lean 4 proof (parse-render inversion, chunk/unchunk with constant stride, sorting lemmas) + differential correspondence on rendered result files',
         'design': '4/C02',
+    },
+    'C03': {
+        'text': 'Proof: C03_boundary / _spring / _cload_roundtrip (prescription set preserved for every NaN pattern, node subset and row order, '
+                '3 dofs; C03_boundary_dof_gt3_lost shows the hypothesis is needed), C03_line_roundtrip, C03_fixtemp / _cflux_roundtrip, '
+                'C03_group_expansion (group-name rows = explicit member rows), C03_solution_type are kernel-checked; tied to the tree by '
+                'identical control-file text and row-by-row table comparison incl. group-name files.',
+        'note': '6-dof tables, all-NaN tables, cflux+pure_cflux are labelled outside streams; %.5E/%E/%.12E rounding is runtime',
+        'technique': 'Lean 4 proof (prescription-set lemmas, line lexers) + differential correspondence of control-file text and parsed tables',
+        'design': '4/C03',
     },
     'C04': {
         'text': 'Proof: C04_offsets (both header line indices computed by read_headers hit the written blocks, the two independent '
@@ -80,6 +101,16 @@ CLAIMED = {
         'technique': 'Lean 4 proof (id-keyed lookup lemmas, sweep correctness) + differential correspondence of result meshes as id-keyed maps',
         'design': '4/C09',
     },
+    'C10': {
+        'text': 'Proof: C10_element_closed (regenerated face tables, decide), C10_element_outward (ring), C10_boundary_spec / '
+                'C10_fistr_scan_spec (both algorithms = faces whose sorted node tuple occurs once), C10_closed / C10_closed_manifold, '
+                'C10_volume (surface flux = sum of element volumes, cancellation lemma over additive groups), C10_same_face_set, '
+                'C10_fistr_same_keys, C10_obj_roundtrip are kernel-checked; hypotheses are Boolean functions the driver evaluates per mesh; '
+                'tied by differential face sets / OBJ text and exact-rational volumes.',
+        'note': 'quad faces measured by the centroid-fan flux (exact for planar faces); OBJ round trip on token lines; STL export not runnable here',
+        'technique': 'Lean 4 proof (boundary cancellation lemma, scan lemma, table obligations) + differential + exact-rational correspondence',
+        'design': '4/C10',
+    },
     'C11': {
         'text': 'Proof (commutative rings / ordered fields): for every volume kernel K (tet, hex linear/centroid/gaussian, pyr, prism, hexprism, '
                 'polyhedron fan/centroid) K(p+t) = K p and K(A.p) = det A . K p (rotation invariance, reflection sign, s^3 scaling in one '
@@ -91,6 +122,14 @@ CLAIMED = {
                 'polyhedron centroid kernel: translation invariance by oracle only',
         'technique': 'Lean 4 proof (ring identities proved structurally, lookup lemmas, counting bijection) + exact-rational P-tie + metamorphic oracle',
         'design': '4/C11',
+    },
+    'C12': {
+        'text': 'Proof: C12_structure / C12_structure_count (cell incident to exactly its own faces; 1 or 2 cells per facet), C12_tet_sign, '
+                'C12_hex_sign_convex, C12_mirror_sign, C12_area_sum_zero, C12_divergence, C12_normal_is_area_vector are kernel-checked; '
+                'tied by differential facet lists / signed incidence triples and exact-rational areas, normals, centres.',
+        'note': 'hex sign needs convexity as an explicit hypothesis; scalar area = |vector area| only for planar facets (sqrt not modelled)',
+        'technique': 'Lean 4 proof (polynomial identities by ring / linear_combination, incidence structure lemma) + differential + exact-rational correspondence',
+        'design': '4/C12',
     },
     'C13': {
         'text': 'Proof: C13_incidence(_order1), C13_adjacency_elem/node, C13_nhop_reach (n-hop = walks of length 1..n, by induction '
@@ -129,6 +168,15 @@ CLAIMED = {
         'note': 'numpy.linalg.eigh post-condition is an explicit hypothesis checked numerically per call; no-mutation clause is an aliasing fact checked by snapshot only',
         'technique': 'Lean 4 proof (index-table decide + Mathlib matrix identities) + exact-rational correspondence + inverse-law oracle',
         'design': '4/C17',
+    },
+    'C18': {
+        'text': 'Proof: C18_pos_correct (argsort[searchsorted] = storage position), C18_pyr_table / C18_poly_closed / C18_poly_own_nodes / '
+                'C18_poly_outward_volume over the polyhedron tables regenerated under a non-identity argsort, C18_degeneracy (four collapse '
+                'patterns keep id, node set, volume) / C18_degeneracy_untouched, C18_positive, C18_permute_table are kernel-checked; tied by '
+                'differential face lists / element blocks on meshes with non-ascending storage order and exact-rational volumes on fresh objects.',
+        'note': 'make_elements_positive modelled for tets only (femio raises otherwise); volumes are centroid kernels',
+        'technique': 'Lean 4 proof (searchsorted position lemma, table obligations by decide, ring) + differential + exact-rational correspondence',
+        'design': '4/C18',
     },
     'C19': {
         'text': 'Proof (partial, by the property\'s own standard): over the cache model (one LRU per cached method with the generated '
